@@ -27,7 +27,8 @@ def setup(rep):
                "(array laws for slice/concatenate/stride, A5); the convolution itself (scipy.signal.convolve of the profile and "
                "the potential) and the final difference are not part of this obligation")
     rep.clause("bounded-whole-signal", "B", "all three models, real constructors and .values on random inputs: length, finiteness, "
-               "+-angle, 1/R, joint shift, zero energy / zero fractions (native sampling)")
+               "+-angle, 1/R, joint shift, whole-sample shift of the shower time (ARZ: everywhere; FFT models: around the pulse, away from "
+               "the window edges), zero energy / zero fractions; directed samplings of small showers and of ARZ a few degrees off the cone")
     rep.clause("bounded-cone-peak", "B", "peak amplitude is largest on the Cherenkov cone and decreases with angular distance on "
                "either side (native sampling; transcendental monotonicity of a peak over an fft is outside the verifier)")
     rep.clause("finite-everywhere", "N", "finiteness in floating point (overflow/underflow) is not modelled (A1); sampled only")
